@@ -558,14 +558,16 @@ def evaluate_resume(ctx, case, pending=None):
     # negotiate (model), the second connection completes.  Not judged: the client's own argument check
     # (ValueError: its new settings no longer offer the session's suite).
     client_arg_error = c.state == "error" and isinstance(c.exc, ValueError)
-    # not modelled (reported as c19:tls12-ticket-vs-record-size-limit): a TLS <= 1.2 server with ticketKeys sends
-    # the NewSessionTicket in one unprotected record before it applies the client's record_size_limit, and the
-    # client already enforces its limit on it -> record_overflow when the limit is below the ticket size
+    # repaired by /repo f043dd9: a TLS <= 1.2 server with ticketKeys sends the NewSessionTicket in one unprotected
+    # record before its ChangeCipherSpec; a client that already enforced its own record_size_limit on it ended in
+    # record_overflow whenever the limit was below the ticket size although the two policies are compatible
     rsl2 = case["resume"]["cs2"].get("record_size_limit")
-    ticket_overflow = mode != "id" and rsl2 and rsl2 < 1024 and lab.exc_class(c.exc) == "local_alert:22"
-    if ticket_overflow:
-        ctx.count("unmodelled:record_overflow on the TLS<=1.2 NewSessionTicket (small client record_size_limit)")
-    if pending is not None and not client_arg_error and not ticket_overflow:
+    if mode != "id" and rsl2 and rsl2 < 1024 and lab.exc_class(c.exc) == "local_alert:22":
+        k = "c03:tls12-ticket-vs-record-size-limit"
+        ctx.violation(k, "client record_overflow on the unprotected NewSessionTicket of a TLS<=1.2 server with "
+                         "ticketKeys (client record_size_limit %d) although the policies negotiate  [%s resumption]"
+                      % (rsl2, mode), dict(jsonable_case(case), stage="resumption", key=k))
+    if pending is not None and not client_arg_error:
         c2 = dict(case, cs=case["resume"]["cs2"], ss=case["resume"]["ss2"])
         pending.append(("resumption-fallback", case, completed, enc_case(c2, vs[2], vs[3])))
 
